@@ -602,4 +602,288 @@ theorem rlpDecodeString_inv (inp s : Bytes) (h : rlpDecodeString inp = .ok s) :
   rw [hn, List.take_length] at h1
   exact ⟨h1, h3⟩
 
+/-! ### lists of frames -/
+
+theorem isFrame_length_pos (f : Bytes) (h : IsFrame f) : 1 ≤ f.length := by
+  rcases h with ⟨b, rfl, _⟩ | ⟨p, _, rfl | rfl⟩
+  · simp
+  · have := header_length_pos 0x80 p.length; simp; omega
+  · have := header_length_pos 0xc0 p.length; simp; omega
+
+/-- reading the header of a frame that sits at `st` -/
+theorem frame_readSize (inp : Bytes) (st : Nat) (f rest : Bytes) (hf : IsFrame f)
+    (hd : inp.drop st = f ++ rest) :
+    ∃ isStr ds sz, readSize inp st = .ok (isStr, ds, sz) ∧ ds + sz = st + f.length ∧ st ≤ ds := by
+  rcases hf with ⟨b, rfl, hb⟩ | ⟨p, hp, rfl | rfl⟩
+  · exact ⟨true, st, 1, RS_readSize _ _ _ _ _ (RS.byte b rest (by simpa using hd) hb), by simp, Nat.le_refl _⟩
+  · refine ⟨true, _, _, RS_readSize _ _ _ _ _ (RS.hdr true p.length (p ++ rest) hp (by simpa [hbase_true] using hd)), ?_, by omega⟩
+    simp [hbase_true]; omega
+  · refine ⟨false, _, _, RS_readSize _ _ _ _ _ (RS.hdr false p.length (p ++ rest) hp (by simpa [hbase_false] using hd)), ?_, by omega⟩
+    simp [hbase_false]; omega
+
+/-- a successful `readSize` whose announced payload fits describes a frame -/
+theorem RS_frame (inp : Bytes) (st : Nat) (isStr : Bool) (ds sz : Nat) (h : RS inp st isStr ds sz)
+    (hb : ¬ (ds > inp.length ∨ sz > inp.length - ds)) :
+    IsFrame ((inp.drop st).take (ds + sz - st)) ∧ st < ds + sz ∧ ds + sz ≤ inp.length ∧ st ≤ ds ∧
+      sz ≤ maxLongLength := by
+  cases h with
+  | byte b rest hd hb1 =>
+    refine ⟨?_, by omega, by omega, by omega, by simp [maxLongLength]⟩
+    rw [hd]
+    have : st + 1 - st = 1 := by omega
+    rw [this]
+    exact .inl ⟨b, rfl, hb1⟩
+  | hdr _ _ rest hn hd =>
+    have hlen := congrArg List.length hd
+    simp only [List.length_drop, List.length_append] at hlen
+    have hp := header_length_pos (hbase isStr) sz
+    refine ⟨?_, by omega, by omega, by omega, hn⟩
+    rw [hd]
+    have : st + (header (hbase isStr) sz).length + sz - st = (header (hbase isStr) sz).length + sz := by omega
+    rw [this, List.take_append, List.take_of_length_le (by omega)]
+    have e : (header (hbase isStr) sz).length + sz - (header (hbase isStr) sz).length = sz := by omega
+    rw [e]
+    have hl : (rest.take sz).length = sz := by simp; omega
+    right
+    refine ⟨rest.take sz, by omega, ?_⟩
+    rw [hl]
+    cases isStr
+    · right; rfl
+    · left; rfl
+
+theorem slice_eq' (inp : Bytes) (a b : Nat) (h1 : a ≤ b) (h2 : b ≤ inp.length) :
+    slice inp a b = .ok ((inp.drop a).take (b - a)) := by
+  rw [slice_eq inp a b h1 h2, List.drop_take]
+
+/-- forward: the loop walks over a sequence of frames -/
+theorem decodeListLoop_frames (inp : Bytes) (lds : Nat) (items : List Bytes) :
+    ∀ (fuel : Nat) (pre post : Bytes) (itemEnd read : Nat) (acc : List Bytes),
+    (∀ f ∈ items, IsFrame f) → inp = pre ++ items.flatten ++ post → lds = read + items.flatten.length →
+    items.length < fuel →
+    decodeListLoop inp lds fuel pre.length itemEnd read acc =
+      .ok (acc ++ items, if items = [] then itemEnd else pre.length + items.flatten.length, lds) := by
+  induction items with
+  | nil =>
+    intro fuel pre post itemEnd read acc _ _ hl hfuel
+    cases fuel with
+    | zero => simp at hfuel
+    | succ fuel =>
+      unfold decodeListLoop
+      simp at hl
+      rw [if_neg (by omega)]
+      simp [hl]
+  | cons f tl ih =>
+    intro fuel pre post itemEnd read acc hfr hinp hl hfuel
+    cases fuel with
+    | zero => simp at hfuel
+    | succ fuel =>
+      have hf := hfr f (by simp)
+      have hfp := isFrame_length_pos f hf
+      have hd : inp.drop pre.length = f ++ (tl.flatten ++ post) := by
+        rw [hinp]; simp
+      obtain ⟨isStr, ds, sz, hrs, hsum, hle⟩ := frame_readSize inp pre.length f _ hf hd
+      have hlen : inp.length = pre.length + f.length + tl.flatten.length + post.length := by
+        rw [hinp]; simp; omega
+      simp only [List.flatten_cons, List.length_append] at hl
+      unfold decodeListLoop
+      rw [if_pos (by omega), hrs]
+      simp only [ok_bind]
+      rw [if_neg (by omega), slice_eq' _ _ _ (by omega) (by omega)]
+      simp only [ok_bind]
+      have e1 : ds + sz - pre.length = f.length := by omega
+      have e2 : (inp.drop pre.length).take f.length = f := by rw [hd]; simp
+      rw [e1, e2, hsum]
+      have := ih fuel (pre ++ f) post (pre.length + f.length) (read + f.length) (acc ++ [f])
+        (fun g hg => hfr g (by simp [hg])) (by rw [hinp]; simp) (by omega) (by simpa using hfuel)
+      simp only [List.length_append] at this
+      rw [this]
+      simp only [List.append_assoc, List.singleton_append, reduceCtorEq, if_false, List.flatten_cons,
+        List.length_append, Out.ok.injEq, Prod.mk.injEq, true_and, and_true]
+      split
+      · rename_i h; subst h; simp
+      · omega
+
+
+theorem decodeList_encodeList (items : List Bytes) (rest : Bytes) (hfr : ∀ f ∈ items, IsFrame f)
+    (hlen : items.flatten.length ≤ maxLongLength) :
+    decodeList (encodeList items ++ rest) 0 = .ok (items, (encodeList items).length) := by
+  unfold encodeList
+  have hrs := RS_readSize (header 0xc0 items.flatten.length ++ items.flatten ++ rest) 0 false _ _
+    (RS.hdr false items.flatten.length (items.flatten ++ rest) hlen (by simp [hbase_false]))
+  rw [hbase_false] at hrs
+  have hp := header_length_pos 0xc0 items.flatten.length
+  generalize hH : header 0xc0 items.flatten.length = H at *
+  unfold decodeList
+  rw [hrs]
+  simp only [ok_bind, Nat.zero_add, Bool.false_eq_true, if_false]
+  by_cases h0 : items.flatten.length = 0
+  · rw [if_pos h0]
+    have : items = [] := by
+      cases items with
+      | nil => rfl
+      | cons f tl =>
+        have := isFrame_length_pos f (hfr f (by simp))
+        simp only [List.flatten_cons, List.length_append] at h0; omega
+    subst this
+    rw [← hH]
+    simp [header]
+  · rw [if_neg h0, if_neg (by simp)]
+    have := decodeListLoop_frames (H ++ items.flatten ++ rest) items.flatten.length items
+      ((H ++ items.flatten ++ rest).length + 1) H rest 0 0 [] hfr rfl (by simp) (by
+        have : items.length ≤ items.flatten.length := by
+          clear hrs hH h0 hlen
+          induction items with
+          | nil => simp
+          | cons f tl ih =>
+            have := isFrame_length_pos f (hfr f (by simp))
+            have := ih (fun g hg => hfr g (by simp [hg]))
+            simp only [List.flatten_cons, List.length_append, List.length_cons]; omega
+        simp only [List.length_append]; omega)
+    rw [this]
+    simp only [ok_bind, List.nil_append]
+    rw [if_neg (by simp)]
+    have : items ≠ [] := by rintro rfl; simp at h0
+    simp [this]
+
+theorem rlpDecodeList_encodeList (items : List Bytes) (hfr : ∀ f ∈ items, IsFrame f)
+    (hlen : items.flatten.length ≤ maxLongLength) :
+    rlpDecodeList (encodeList items) = .ok items := by
+  unfold rlpDecodeList
+  have := decodeList_encodeList items [] hfr hlen
+  rw [List.append_nil] at this
+  rw [this]
+  simp
+
+/-- inversion: whatever the loop returns is a sequence of frames read consecutively -/
+theorem decodeListLoop_inv (inp : Bytes) (lds : Nat) :
+    ∀ (fuel itemStart itemEnd read : Nat) (acc items : List Bytes) (ie rd : Nat),
+    decodeListLoop inp lds fuel itemStart itemEnd read acc = .ok (items, ie, rd) →
+    ∃ new : List Bytes, items = acc ++ new ∧ (∀ f ∈ new, IsFrame f) ∧ rd = read + new.flatten.length ∧
+      ie = (if new = [] then itemEnd else itemStart + new.flatten.length) ∧
+      new.flatten = (inp.drop itemStart).take new.flatten.length ∧
+      (new ≠ [] → itemStart + new.flatten.length ≤ inp.length) ∧ ¬ rd < lds := by
+  intro fuel
+  induction fuel with
+  | zero => intro _ _ _ _ _ _ _ h; unfold decodeListLoop at h; cases h
+  | succ fuel ih =>
+    intro itemStart itemEnd read acc items ie rd h
+    unfold decodeListLoop at h
+    split at h
+    · rw [bind_eq_ok] at h
+      obtain ⟨⟨isStr, ds, sz⟩, hrs, h⟩ := h
+      have hRS := readSize_RS _ _ _ _ _ hrs
+      simp only [] at h
+      split at h
+      · cases h
+      rename_i hb
+      obtain ⟨hfr, h1, h2, h3, _⟩ := RS_frame inp itemStart isStr ds sz hRS hb
+      rw [slice_eq' _ _ _ (by omega) (by omega)] at h
+      simp only [ok_bind] at h
+      obtain ⟨new, hitems, hnew, hrd, hie, hflat, hlen, hdone⟩ := ih _ _ _ _ _ _ _ h
+      generalize hitem : (inp.drop itemStart).take (ds + sz - itemStart) = item at *
+      have hil : item.length = ds + sz - itemStart := by subst hitem; simp; omega
+      refine ⟨item :: new, by simp [hitems], ?_, ?_, ?_, ?_, ?_, hdone⟩
+      · intro f hf
+        rcases List.mem_cons.mp hf with rfl | hf
+        · exact hfr
+        · exact hnew f hf
+      · simp only [List.flatten_cons, List.length_append]; omega
+      · simp only [reduceCtorEq, if_false, List.flatten_cons, List.length_append]
+        rw [hie]; split
+        · rename_i hn; subst hn; simp; omega
+        · omega
+      · simp only [List.flatten_cons, List.length_append]
+        rw [List.take_add, List.drop_drop, hil]
+        have : itemStart + (ds + sz - itemStart) = ds + sz := by omega
+        rw [this, ← hflat, hitem]
+      · intro _
+        simp only [List.flatten_cons, List.length_append]
+        by_cases hn : new = []
+        · subst hn; simp; omega
+        · have := hlen hn; omega
+    · rename_i hdone
+      simp only [Out.ok.injEq, Prod.mk.injEq] at h
+      obtain ⟨rfl, rfl, rfl⟩ := h
+      exact ⟨[], by simp, by simp, by simp, by simp, by simp, by simp, hdone⟩
+
+
+theorem decodeList_inv (inp : Bytes) (items : List Bytes) (n : Nat) (h : decodeList inp 0 = .ok (items, n)) :
+    inp.take n = encodeList items ∧ n ≤ inp.length ∧ (∀ f ∈ items, IsFrame f) ∧
+      items.flatten.length ≤ maxLongLength ∧ n = (encodeList items).length := by
+  unfold decodeList at h
+  rw [bind_eq_ok] at h
+  obtain ⟨⟨isStr, ds, sz⟩, hrs, h⟩ := h
+  have hRS := readSize_RS _ _ _ _ _ hrs
+  simp only [] at h
+  cases hRS with
+  | byte b rest hd hb => simp at h
+  | hdr _ _ rest hn hd =>
+    simp only [List.drop_zero] at hd
+    have hp := header_length_pos (hbase isStr) sz
+    cases isStr with
+    | true => simp at h
+    | false =>
+    rw [hbase_false] at hd hp h
+    simp only [Bool.false_eq_true, if_false, Nat.zero_add] at h
+    unfold encodeList
+    split at h
+    · rename_i h0
+      subst h0
+      simp only [pure_eq_ok, Out.ok.injEq, Prod.mk.injEq] at h
+      obtain ⟨rfl, rfl⟩ := h
+      have hh : header 192 0 = [0xc0] := by simp [header]
+      rw [hh] at hd
+      subst hd
+      simp [hh, maxLongLength]
+    rename_i h0
+    generalize hH : header 192 sz = H at *
+    subst hd
+    split at h
+    · cases h
+    rename_i hb
+    simp only [List.length_append] at hb
+    rw [bind_eq_ok] at h
+    obtain ⟨⟨items', ie, rd⟩, hloop, h⟩ := h
+    simp only [] at h
+    split at h
+    · cases h
+    rename_i hrd
+    simp only [pure_eq_ok, Out.ok.injEq, Prod.mk.injEq] at h
+    obtain ⟨rfl, rfl⟩ := h
+    obtain ⟨new, hitems, hnew, hrd2, hie, hflat, hlen, _⟩ := decodeListLoop_inv _ _ _ _ _ _ _ _ _ _ hloop
+    simp only [List.nil_append] at hitems
+    subst hitems
+    have hrd : rd = sz := by simpa using hrd
+    have hne : items' ≠ [] := by rintro rfl; simp at hrd2; omega
+    rw [if_neg hne] at hie
+    have hlen := hlen hne
+    simp only [List.length_append] at hlen
+    have hfl : items'.flatten.length = sz := by omega
+    rw [hfl] at hflat hie ⊢
+    subst hie
+    have e : (H ++ rest).drop H.length = rest := by simp
+    rw [e] at hflat
+    rw [hflat, ← hH]
+    rw [hH]
+    refine ⟨?_, by simp only [List.length_append]; omega, hnew, hn, ?_⟩
+    · simp [List.take_append, List.take_of_length_le]
+    · have : (rest.take sz).length = sz := by rw [← hflat]; exact hfl
+      simp only [List.length_append, this]; omega
+
+theorem rlpDecodeList_inv (inp : Bytes) (items : List Bytes) (h : rlpDecodeList inp = .ok items) :
+    inp = encodeList items ∧ (∀ f ∈ items, IsFrame f) ∧ items.flatten.length ≤ maxLongLength := by
+  unfold rlpDecodeList at h
+  rw [bind_eq_ok] at h
+  obtain ⟨⟨xs, n⟩, hd, h⟩ := h
+  simp only [] at h
+  split at h
+  · cases h
+  rename_i hn
+  simp only [pure_eq_ok, Out.ok.injEq] at h
+  subst h
+  have hn : n = inp.length := by simpa using hn
+  obtain ⟨h1, _, h3, h4, _⟩ := decodeList_inv inp xs n hd
+  rw [hn, List.take_length] at h1
+  exact ⟨h1, h3, h4⟩
+
 end Verif.Proofs.RlpExact
